@@ -286,7 +286,7 @@ func dbgExec(p *dbgPlan, src string, withDebugger bool, prop string) dbgOutcome 
 	if p.BreakOnStart {
 		dbgCmd(dbg, prop, "breakonstart true")
 	}
-	mainDone := false
+	mainDone := &hbFlag{}
 	var mainTid uint64
 	mainTask := simrt.Go("main", func() {
 		ast, err := parser.ParseWithRuntime("c15", src, erp)
@@ -300,12 +300,12 @@ func dbgExec(p *dbgPlan, src string, withDebugger bool, prop string) dbgOutcome 
 		res, err := ast.Runtime.Eval(vs, make(map[string]interface{}), mainTid)
 		dbg.RecordThreadFinished(mainTid)
 		out.result = fmt.Sprintf("%v | %v", res, err)
-		mainDone = true
+		mainDone.set()
 	})
 	// the debugger client: polls status and resumes every suspended thread with a
 	// command chosen by the scheduler, at an instant chosen by the scheduler
 	var clients simsync.WaitGroup
-	stopClients := false
+	stopClients := &hbFlag{}
 	if prop == "C16" && p.Garbage {
 		// a second debugger client (the debug server serves every connection on its own
 		// goroutine): resumes suspended threads - also the command thread of the first
@@ -315,7 +315,7 @@ func dbgExec(p *dbgPlan, src string, withDebugger bool, prop string) dbgOutcome 
 			defer clients.Done()
 			// keeps going until the first client has returned from its last command (which
 			// may itself be suspended as the command thread of an injected expression)
-			for !stopClients {
+			for !stopClients.get() {
 				for _, tid := range dbgSuspended(dbg, prop) {
 					if simrt.ChooseP(0.3) {
 						dbgCmd(dbg, prop, fmt.Sprintf("describe %d", tid))
@@ -334,7 +334,7 @@ func dbgExec(p *dbgPlan, src string, withDebugger bool, prop string) dbgOutcome 
 	}
 	round := 0
 	idleRounds := 0
-	for !mainDone {
+	for !mainDone.get() {
 		round++
 		for _, bp := range p.BPs {
 			if bp.When == round {
@@ -386,12 +386,12 @@ func dbgExec(p *dbgPlan, src string, withDebugger bool, prop string) dbgOutcome 
 			simrt.Count("fault_debug_inject_calling_program_function")
 			dbgCmd(dbg, prop, fmt.Sprintf("inject %d zz inc(dbl(2))", suspended[0]))
 		}
-		if mainDone {
+		if mainDone.get() {
 			break
 		}
 		if len(suspended) == 0 && simrt.OthersQuiescent() {
 			// nobody else can take a step and there is nothing to resume: check once more
-			if len(dbgSuspended(dbg, prop)) == 0 && !mainDone {
+			if len(dbgSuspended(dbg, prop)) == 0 && !mainDone.get() {
 				idleRounds++
 				if idleRounds >= 2 {
 					simrt.Fail("oracle:thread-not-resumed", "lost-wakeup",
@@ -404,7 +404,7 @@ func dbgExec(p *dbgPlan, src string, withDebugger bool, prop string) dbgOutcome 
 		}
 		simrt.Yield()
 	}
-	stopClients = true
+	stopClients.set()
 	clients.Wait()
 	if prop == "C16" && p.Garbage {
 		for i := 0; i < 3; i++ {
